@@ -5,9 +5,9 @@
 patch="$(readlink -f "$1")"; shift
 wt=/tmp/trymut_$$
 git -C /repo worktree add -q --detach $wt HEAD || exit 2
-trap 'git -C /repo worktree remove --force '$wt EXIT
+trap 'git -C /repo worktree remove --force '$wt'; rm -rf /tmp/gen_try_'$$ EXIT
 git -C $wt apply "$patch" || { echo "patch does not apply"; exit 2; }
 for id in "$@"; do
   echo "=== $id"
-  (cd /verif && LEKKERSIM_REPO=$wt VERIF_EVIDENCE_DIR=/tmp/ev_mut VERIF_REPLAY_DIR=/tmp/rp_mut ./check "$id" quick 2>&1 | grep -E "VIOLATION|KNOWN|^\[|^   " | grep -v "^VIOLATION" | head -12)
+  (cd /verif && LEKKERSIM_REPO=$wt VERIF_GEN_DIR=/tmp/gen_try_$$ VERIF_EVIDENCE_DIR=/tmp/ev_mut VERIF_REPLAY_DIR=/tmp/rp_mut ./check "$id" quick 2>&1 | grep -E "VIOLATION|KNOWN|^\[|^   " | grep -v "^VIOLATION" | head -12)
 done
